@@ -349,7 +349,9 @@ func (s *Sched) stateKey() [16]byte {
 		fmt.Fprintf(h, "M|%s|", n)
 		h.Write(c[:])
 	}
-	if s.running != nil {
+	// The identity of the last-run thread only matters while it can still be
+	// chosen (switching away from it is what costs a preemption).
+	if s.running != nil && s.running.st == stParked {
 		fmt.Fprintf(h, "R|%s|", s.running.Name)
 	}
 	if s.KeyFn != nil {
